@@ -35,9 +35,9 @@ package ice
 //@   ensures error-zero: err != nil && !(conn.rpos == old(conn.rpos) + 2 && be16(conn.stream, old(conn.rpos)) > cap(buf)) ==> result == 0
 
 //@ func writeStreamingPacket
-//@   props C14
+//@   props C14 C15
 //@   safety index nil
-//@   requires conn != nil
+//@   requires C14 conn != nil
 //@   modifies fam:H_net.Conn.wpos, fam:H_net.Conn.wstream, fam:E_uint8
 //@   ghostvar writes int = 0
 //@   site call Write#0 ghost writes := writes + 1
